@@ -33,7 +33,13 @@ type errReader struct{}
 func (errReader) Read([]byte) (int, error) { return 0, errors.New("injected read failure") }
 func (errReader) Close() error             { return nil }
 
+// c16Bodyless: files that extend the layout consist of the extends clause alone (an alias page: no node of its own)
+var c16Bodyless = false
+
 func c16Content(p string, f fFile) string {
+	if f.X && c16Bodyless {
+		return `{{extends "y"}}`
+	}
 	if f.X {
 		return fmt.Sprintf(`{{extends "y"}}{{block b()}}%s#%d{{end}}`, p, f.V)
 	}
@@ -65,6 +71,9 @@ type c16T struct {
 }
 
 func (t c16T) render() string {
+	if t.LPath != "" && c16Bodyless && t.Path != "/p" { // the text given to Set.Parse keeps its block
+		return fmt.Sprintf("<%s#%d:->", t.LPath, t.LVer)
+	}
 	if t.LPath == "" {
 		return fmt.Sprintf("<%s#%d:->", t.Path, t.Ver)
 	}
@@ -285,10 +294,22 @@ func c16Replay(i int, raw json.RawMessage) Result {
 	for _, op := range v.Hist {
 		hasParse = hasParse || op.Op == "ParseExt"
 	}
-	for pass, custom := range []bool{true, false, true} {
+	hasX := false
+	for _, op := range v.Hist {
+		hasX = hasX || (op.F != nil && op.F.X)
+		for _, f := range op.World {
+			hasX = hasX || f.X
+		}
+	}
+	defer func() { c16Bodyless = false }()
+	for pass, custom := range []bool{true, false, true, false} {
 		c16Import = pass == 2
+		c16Bodyless = pass == 3
 		if c16Import && !hasParse {
 			c16Import = false
+			continue
+		}
+		if c16Bodyless && !hasX {
 			break
 		}
 		obs := c16RunHistory(&v, custom)
@@ -300,6 +321,7 @@ func c16Replay(i int, raw json.RawMessage) Result {
 			sig := c16Sig(&v, at, why)
 			sig["custom_cache"] = custom
 			sig["import"] = c16Import
+			sig["bodyless"] = c16Bodyless
 			c16Import = false
 			return Result{OK: false, Sig: sig, Observed: obs, Key: key,
 				Detail: fmt.Sprintf("op %d (%s %s): %s", at, v.Hist[at].Op, v.Hist[at].N, why)}
